@@ -11,9 +11,14 @@ NOTE = ("Trusted: Lean 4.33 kernel; axioms propext/Classical.choice/Quot.sound o
         "user callbacks are a universally quantified parameter of the model.")
 
 SRC_TIE = {
-    "C01": "_trigger (both engines)", "C02": "_activate (both engines)", "C03": "processing_loop (both engines)",
-    "C04": "_activate and processing_loop (both engines)", "C05": "_activate, _trigger and processing_loop of both engines, and `async = sync with awaits`",
-    "C11": "_trigger (the __initial__ branch) and _activate on the initial pseudo-transition", "C14": "_activate (result accumulation and the unwrap rule)",
+    "C01": "_trigger (both engines), CallbackWrapper.call/__call__ and CallbacksExecutor.all/async_all",
+    "C02": "_activate (both engines), CallbackWrapper.call/__call__ and CallbacksExecutor.call/async_call",
+    "C03": "processing_loop (both engines)",
+    "C04": "_activate and processing_loop (both engines), CallbacksExecutor.call/async_call",
+    "C05": "_activate, _trigger and processing_loop of both engines (`async = sync with awaits`), the wrapper and executor methods of callbacks.py in their sync and async forms",
+    "C08": "CallbackWrapper.call/__call__ (truth value compared with the expected value) and CallbacksExecutor.all/async_all (conjunction, left to right, first failing guard stops)",
+    "C11": "_trigger (the __initial__ branch, the stale activation trigger) and _activate on the initial pseudo-transition",
+    "C14": "_activate (result accumulation and the unwrap rule), CallbackWrapper.call/__call__ and CallbacksExecutor.call/async_call",
 }
 
 CLAIMS = {
